@@ -966,6 +966,8 @@ def run(ctx):
     ctx.do(r10_7)
     ctx.do(r10_8)
     ctx.do(r10_9)
+    from . import c06 as _c06
+    ctx.do(_c06.r6_10)  # no command is queued on a mailbox whose management task is gone
     from . import c01
     ctx.do(c01.r1_5)
     from . import c20 as _c20
